@@ -320,7 +320,7 @@ func (w *World) Exec(op string) error {
 	atoi := func(s string) int { n, _ := strconv.Atoi(s); return n }
 	var ww *WalletW
 	switch f[0] {
-	case "rotate":
+	case "rotate", "netfail":
 	default:
 		ww = w.Wallets[atoi(arg(1))]
 		w.R.Cur = ww.Name
@@ -606,6 +606,8 @@ func (w *World) Exec(op string) error {
 			w.viol("C17", "wallet-does-not-load", "%s: %v", op, err)
 			return fmt.Errorf("reload: %v", err)
 		}
+	case "netfail": // the next request to this path is lost on the wire (a transport error for the wallet)
+		w.R.FailNext[arg(1)]++
 	case "restorews":
 		// the user types the backup words with a doubled blank and a trailing blank (bip39 accepts that spelling); from
 		// now on this spelling IS the wallet's mnemonic as far as the harness' derivations are concerned
@@ -992,6 +994,11 @@ func (w *World) Canon() string {
 		// the number of signatures a mint has stored is part of the state: two histories that leave the wallets alike
 		// may differ in which deterministic outputs are already signed (and would be refused if submitted again)
 		fmt.Fprintf(&sb, "M%s:ks=%d:out=%d:sigs=%d;", n, len(t.Keysets), t.Issued-t.Redeemed, len(t.Signed))
+	}
+	for _, p := range []string{"/v1/swap", "/v1/melt/bolt11", "/v1/mint/bolt11"} {
+		if n := w.R.FailNext[p]; n > 0 {
+			fmt.Fprintf(&sb, "NETFAIL%s=%d;", p, n)
+		}
 	}
 	ms := func(ps []string) string { sort.Strings(ps); return strings.Join(ps, ",") }
 	for _, ww := range w.Wallets {
